@@ -333,6 +333,15 @@ def tour(ctx, case, inst, instance):
 
 def instance_case(case, ctx):
     inst = case["inst"]
+    if case["tour"] & 64 and not any(len(ms) > 1 for row in inst["machines"] for ms in row):
+        # a job whose line in Taillard text reads exactly like the size line:
+        # one operation on machine J lasting M time units (J jobs, M machines)
+        inst = dict(inst)
+        n_jobs = len(inst["durations"]) + 1
+        n_mach = max(1 + max(x for row in inst["machines"] for ms in row for x in ms), n_jobs + 1)
+        inst["durations"] = [list(r) for r in inst["durations"]] + [[n_mach]]
+        inst["machines"] = [list(r) for r in inst["machines"]] + [[[n_jobs]]]
+        ctx.label("job_line_equals_size_line")
     instance = build_instance(inst)
     check_views(ctx, inst, instance, "fresh instance")
     flexible = any(len(ms) > 1 for row in inst["machines"] for ms in row)
